@@ -253,3 +253,5 @@ V('D3_ne_not_negation', ['C13'], 'bits.py', "        return not self.__eq__(bs)"
 V('L_frombuffer_keeps_whole_file', ['C08', 'C13', 'C16', 'C17'], 'bitstore.py', "            x._bitarray = bitarray.bitarray(x._bitarray[:x.modified_length])\n            x.modified_length = None\n", "", ['L'])
 V('E10_extend_ignores_itemsize', ['C18'], 'array_.py', "            other_dtype = dtype_register.get_dtype(name_value[0], iterable.itemsize * 8, scale=None)", "            other_dtype = dtype_register.get_dtype(*name_value, scale=None)", ['E10'])
 S('C_S_shift_dtypes', ['C06', 'C10', 'C09'], 'dtypes.py', fn=shift_lines)
+V('F1_option_dropped_from_key', ['C09'], 'bitstore_helpers.py', "    return _str_to_bitstore(s, bitstring.options.lsb0, bitstring.options.mxfp_overflow)", "    return _str_to_bitstore(s, bitstring.options.lsb0, 'saturate')", ['F1'])
+V('F1_cache_on_wrapper_again', ['C09'], 'bitstore_helpers.py', "def str_to_bitstore(s: str) -> BitStore:\n    # Some tokens", "@functools.lru_cache(CACHE_SIZE)\ndef str_to_bitstore(s: str) -> BitStore:\n    # Some tokens", ['F1'])
